@@ -183,12 +183,27 @@ func c20Run(e *c20Env, sc c20Scenario) (fail string, faultHit bool) {
 	switch sc.Secondary {
 	case "fresh", "stale":
 		dest = e.accept.addr
-	case "reset":
+	case "reset", "reset-observed":
 		dest = e.reset.addr
 	case "refusing":
 		dest = e.refusing
 	}
 	startA, startR := e.accept.count(), e.reset.count()
+	// "reset-observed": the connection-established callback returns only after the
+	// peer's reset has arrived, so every write on that connection fails for certain
+	established := func(c net.Conn) {}
+	if sc.Secondary == "reset-observed" {
+		established = func(c net.Conn) {
+			c.SetReadDeadline(time.Now().Add(5 * time.Second))
+			buf := make([]byte, 16)
+			for {
+				if _, err := c.Read(buf); err != nil {
+					break
+				}
+			}
+			c.SetReadDeadline(time.Time{})
+		}
+	}
 	var subject c20Sender
 	var primaryConn, staleConn *c20Conn
 	var fo *FailOverClientTransport
@@ -204,7 +219,7 @@ func c20Run(e *c20Env, sc c20Scenario) (fail string, faultHit bool) {
 			dh, dps, _ := net.SplitHostPort(dest)
 			dp := 0
 			fmt.Sscanf(dps, "%d", &dp)
-			st, _ := NewTCPClientTransport(dh, dp, "", nil)
+			st, _ := NewTCPClientTransport(dh, dp, "", established)
 			if sc.Secondary == "stale" {
 				staleConn = &c20Conn{name: "stale", failAfter: 0}
 				scripted = append(scripted, staleConn)
@@ -223,7 +238,7 @@ func c20Run(e *c20Env, sc c20Scenario) (fail string, faultHit bool) {
 		if dest == "" {
 			dest = e.refusing
 		}
-		tb, _ := NewTCPBackend("", dest, func(net.Conn) {})
+		tb, _ := NewTCPBackend("", dest, established)
 		switch sc.Primary {
 		case "healthy":
 			primaryConn = &c20Conn{name: "cached", failAfter: -1}
@@ -301,7 +316,7 @@ func c20Run(e *c20Env, sc c20Scenario) (fail string, faultHit bool) {
 		if staleConn != nil && staleConn.failed {
 			faultHit = true
 		}
-		if sc.Secondary == "refusing" || sc.Secondary == "reset" {
+		if sc.Secondary == "refusing" || sc.Secondary == "reset" || sc.Secondary == "reset-observed" {
 			faultHit = faultHit || !primaryAlive
 		}
 		// (4) a failed cached connection is never written to again
@@ -326,6 +341,9 @@ func c20Run(e *c20Env, sc c20Scenario) (fail string, faultHit bool) {
 				}
 			}
 			sc2.mu.Unlock()
+		}
+		if err == nil && sc.Secondary == "reset-observed" && !primaryAlive {
+			return fmt.Sprintf("send %d of [%s] reported success although every connection to the destination had been reset before the write (no write can have succeeded)", i+1, sc), faultHit
 		}
 		if err == nil {
 			// wait for the real connections to have read what was written
@@ -405,7 +423,7 @@ func fo2sec(fo *FailOverClientTransport) (*TCPClientTransport, bool) {
 }
 
 func TestC20(t *testing.T) {
-	V.Rule("unit, fault enumeration: cached inbound connection {absent, healthy, failing on write after 0 / 1 / len-1 bytes} x reconnectable path {absent, fresh, stale connection failing once then destination accepts, destination refusing, destination accepting then resetting} x send sequences of 1-3 distinct messages x subject {FailOverClientTransport over TCPClientTransports, TCPBackend (cached connection x destination)} enumerated completely; plus rapid-generated sequences of up to 12 sends with faults re-armed between sends (cached connection breaks later; peer drops the reconnectable connection). Scripted net.Conn doubles record every Write; real loopback listeners record every accepted connection's bytes. Oracle: success => some connection received the complete message (not asserted for a resetting destination); a working path (healthy cached connection or accepting destination) => the send must succeed; refusing destination => error within the call, no hang, no panic; a failed cached connection is never written again; every real connection holds a concatenation of complete messages; no message is written completely twice. non-trivial = scenario in which a write or dial fails and a later attempt exists; distinct by scenario")
+	V.Rule("unit, fault enumeration: cached inbound connection {absent, healthy, failing on write after 0 / 1 / len-1 bytes} x reconnectable path {absent, fresh, stale connection failing once then destination accepts, destination refusing, destination accepting then resetting, the same with the reset observed before the write (connection-established callback waits for it: every write then fails for certain)} x send sequences of 1-3 distinct messages x subject {FailOverClientTransport over TCPClientTransports, TCPBackend (cached connection x destination)} enumerated completely; plus rapid-generated sequences of up to 12 sends with faults re-armed between sends (cached connection breaks later; peer drops the reconnectable connection). Scripted net.Conn doubles record every Write; real loopback listeners record every accepted connection's bytes. Oracle: success => some connection received the complete message (not asserted for a resetting destination); a working path (healthy cached connection or accepting destination) => the send must succeed; all writes failed for certain (reset observed) => the send must not report success; refusing destination => error within the call, no hang, no panic; a failed cached connection is never written again; every real connection holds a concatenation of complete messages; no message is written completely twice. non-trivial = scenario in which a write or dial fails and a later attempt exists; distinct by scenario")
 	V.Require("fault hit", "subject:failover", "subject:tcpbackend", "secondary:refusing", "secondary:reset", "secondary:stale", "primary:fail@len-1")
 	env, err := newC20Env(210)
 	if err != nil {
@@ -420,9 +438,9 @@ func TestC20(t *testing.T) {
 	outer:
 		for _, subject := range []string{"failover", "tcpbackend"} {
 			prims := []string{"absent", "healthy", "fail@0", "fail@1", "fail@len-1"}
-			secs := []string{"absent", "fresh", "stale", "refusing", "reset"}
+			secs := []string{"absent", "fresh", "stale", "refusing", "reset", "reset-observed"}
 			if subject == "tcpbackend" {
-				secs = []string{"fresh", "refusing", "reset"} // the destination
+				secs = []string{"fresh", "refusing", "reset", "reset-observed"} // the destination
 			}
 			for _, p := range prims {
 				for _, s := range secs {
@@ -461,9 +479,9 @@ func TestC20(t *testing.T) {
 		sc := c20Scenario{Subject: rapid.SampledFrom([]string{"failover", "failover", "tcpbackend"}).Draw(rt, "subject")}
 		sc.Primary = rapid.SampledFrom([]string{"absent", "healthy", "healthy", "fail@0", "fail@1", "fail@len-1"}).Draw(rt, "primary")
 		if sc.Subject == "failover" {
-			sc.Secondary = rapid.SampledFrom([]string{"absent", "fresh", "fresh", "stale", "refusing", "reset"}).Draw(rt, "secondary")
+			sc.Secondary = rapid.SampledFrom([]string{"absent", "fresh", "fresh", "stale", "refusing", "reset", "reset-observed"}).Draw(rt, "secondary")
 		} else {
-			sc.Secondary = rapid.SampledFrom([]string{"fresh", "fresh", "refusing", "reset"}).Draw(rt, "destination")
+			sc.Secondary = rapid.SampledFrom([]string{"fresh", "fresh", "refusing", "reset", "reset-observed"}).Draw(rt, "destination")
 		}
 		sc.Sends = rapid.IntRange(1, 12).Draw(rt, "sends")
 		for i := 0; i < sc.Sends; i++ {
